@@ -41,7 +41,7 @@ func newWorkDir(verifDir string) (string, error) {
 }
 
 // RunNative executes tapes (all for harnesses of one package, rel dir `rel`).
-func RunNative(verifDir, rel string, funcs map[string][]string, tapes []NativeTape, race bool) ([]NativeResult, string, error) {
+func RunNative(verifDir, rel string, funcs map[string][]string, tapes []NativeTape, race bool, stressSec ...int) ([]NativeResult, string, error) {
 	wd, err := newWorkDir(verifDir)
 	if err != nil {
 		return nil, "", err
@@ -111,6 +111,9 @@ func RunNative(verifDir, rel string, funcs map[string][]string, tapes []NativeTa
 		"VERIF_TAPES="+tf, "VERIF_RESULTS="+rf)
 	if race {
 		cmd.Env = append(cmd.Env, "CGO_ENABLED=1", "VERIF_CONCURRENT=1")
+	}
+	if len(stressSec) > 0 && stressSec[0] > 0 {
+		cmd.Env = append(cmd.Env, "VERIF_CONCURRENT=1", fmt.Sprintf("VERIF_STRESS=%d", stressSec[0]))
 	}
 	out, runErr := cmd.CombinedOutput()
 	rb, err := os.ReadFile(rf)
